@@ -28,6 +28,11 @@ theorem foldl_insert_perm (l : List Freq) :
 theorem sortDesc_perm (l : List Freq) : (sortDesc l).Perm l := by
   simpa [sortDesc] using foldl_insert_perm l []
 
+/-- every node except the root is a child of an inner node -/
+def Covered (nodes : Table) : Prop :=
+  ∀ j, j < nodes.size → j = nodes.size - 1 ∨
+    (∃ i, NUM_SYMBOLS ≤ i ∧ i < nodes.size ∧ ((node nodes i).1 = j ∨ (node nodes i).2 = j))
+
 /-- the inner-node condition of `WellFormed` for all nodes created so far -/
 def InnerBelow (nodes : Table) : Prop :=
   ∀ i, NUM_SYMBOLS ≤ i → i < nodes.size →
@@ -40,22 +45,43 @@ structure BInv (fs : List Freq) (nodes : Table) : Prop where
   inner : InnerBelow nodes
   count : fs.length + nodes.size = 514
   nonempty : 1 ≤ fs.length
+  covered : ∀ j, j < nodes.size → (∃ x ∈ fs, x.nodeIdx = j) ∨
+    (∃ i, NUM_SYMBOLS ≤ i ∧ i < nodes.size ∧ ((node nodes i).1 = j ∨ (node nodes i).2 = j))
 
 theorem buildTree_inv (fuel : Nat) :
     ∀ (fs : List Freq) (nodes : Table), BInv fs nodes → fs.length ≤ fuel + 1 →
-      (buildTree fuel fs nodes).size = 513 ∧ InnerBelow (buildTree fuel fs nodes) := by
+      (buildTree fuel fs nodes).size = 513 ∧ InnerBelow (buildTree fuel fs nodes)
+        ∧ Covered (buildTree fuel fs nodes) := by
+  have hcov : ∀ (fs : List Freq) (nodes : Table), BInv fs nodes → fs.length ≤ 1 → Covered nodes := by
+    intro fs nodes h hl j hj
+    have hc := h.count; have hn := h.nonempty
+    have hsz : nodes.size = 513 := by omega
+    obtain ⟨x, hx⟩ : ∃ x, fs = [x] := by
+      match fs, hl, hn with
+      | [x], _, _ => exact ⟨x, rfl⟩
+    subst hx
+    -- the root can only be the single remaining element
+    have hroot : x.nodeIdx = 512 := by
+      rcases h.covered 512 (by omega) with ⟨y, hy, e⟩ | ⟨i, i1, i2, i3⟩
+      · simp only [List.mem_singleton] at hy; subst hy; exact e
+      · have := h.inner i i1 i2
+        rcases i3 with e | e <;> omega
+    rcases h.covered j hj with ⟨y, hy, e⟩ | hch
+    · simp only [List.mem_singleton] at hy; subst hy
+      left; omega
+    · right; exact hch
   induction fuel with
   | zero =>
     intro fs nodes h hf
     have := h.count; have := h.nonempty
     simp only [buildTree]
-    exact ⟨by omega, h.inner⟩
+    exact ⟨by omega, h.inner, hcov fs nodes h (by omega)⟩
   | succ f ih =>
     intro fs nodes h hf
     by_cases hlen : fs.length ≤ 1
     · have := h.count; have := h.nonempty
       rw [buildTree]; simp only [hlen, if_true]
-      exact ⟨by omega, h.inner⟩
+      exact ⟨by omega, h.inner, hcov fs nodes h hlen⟩
     · have hperm := sortDesc_perm fs
       have hslen : (sortDesc fs).reverse.length = fs.length := by
         rw [List.length_reverse, hperm.length_eq]
@@ -108,6 +134,31 @@ theorem buildTree_inv (fuel : Nat) :
           simp only [List.length_cons] at hl2
           omega
         · simp
+        · intro j hj
+          simp only [Array.size_push] at hj
+          by_cases hjs : j = nodes.size
+          · left
+            refine ⟨⟨if f1.frequency + f2.frequency > U32_MAX then U32_MAX else f1.frequency + f2.frequency,
+              nodes.size⟩, ?_, hjs.symm⟩
+            simp
+          · rcases h.covered j (by omega) with ⟨x, hx, e⟩ | ⟨i, i1, i2, i3⟩
+            · have hx' := (hperm2.mem_iff).mpr hx
+              simp only [List.mem_cons] at hx'
+              rcases hx' with rfl | rfl | hx'
+              · right
+                refine ⟨nodes.size, h.size_ge, by simp, ?_⟩
+                rw [node_push]; simp [e]
+              · right
+                refine ⟨nodes.size, h.size_ge, by simp, ?_⟩
+                rw [node_push]; simp [e]
+              · left
+                exact ⟨x, by simp [hx'], e⟩
+            · right
+              refine ⟨i, i1, by simp only [Array.size_push]; omega, ?_⟩
+              rw [node_push]
+              have : i ≠ nodes.size := by omega
+              simp only [this, if_false]
+              exact i3
       · simp only [List.length_append, List.length_reverse, List.length_singleton]
         simp only [List.length_cons] at hl2
         omega
@@ -222,11 +273,21 @@ theorem fromFrequencies_inner (f : List Nat) (t : Table) (h : fromFrequencies f 
         omega
       · simp [hlen', NUM_SYMBOLS]
       · simp
+      · intro j hj
+        simp only [Array.size_replicate, NUM_SYMBOLS] at hj
+        left
+        by_cases hj6 : j = 256
+        · exact ⟨⟨1, EOF⟩, by simp, by simp [EOF, hj6]⟩
+        · have : j ∈ List.range' 0 256 := by simp only [List.mem_range'_1]; omega
+          rw [← hidx] at this
+          simp only [List.mem_map] at this
+          obtain ⟨x, hx, e⟩ := this
+          exact ⟨x, by simp only [List.mem_append]; left; exact List.mem_map.mpr hx, e⟩
     have hb := buildTree_inv _ _ _ hinit (Nat.le_succ _)
     revert h
     generalize buildTree _ _ (Array.replicate NUM_SYMBOLS (65535, 65535)) = T at hb
     intro h
-    obtain ⟨hT1, hT2⟩ := hb
+    obtain ⟨hT1, hT2, _hT3⟩ := hb
     cases hd : dfs T 4096 [] 0 true with
     | panic s => rw [hd] at h; cases h
     | diverge => rw [hd] at h; cases h
